@@ -43,7 +43,22 @@ def load_recipes():
   ]
 
 
+def events_mini():
+  """12 adds over 2 regexes x {'*', FULLY_CONNECTED} x 3 combos + 1 load:
+  small enough for depth 5."""
+  ev = []
+  for rg in ('.*', 'a'):
+    for op in ('*', 'FULLY_CONNECTED'):
+      for label, alg, cfg in (COMBOS[0], COMBOS[1], COMBOS[3]):
+        ev.append({'e': 'add', 'regex': rg, 'op': op, 'alg': alg, 'cfg': cfg,
+                   'label': f'add({rg},{op},{label})'})
+  ev.append({'e': 'load', 'recipe': load_recipes()[2][1], 'label': 'load:two'})
+  return ev
+
+
 def events(tier, blk=False):
+  if tier == 'mini':
+    return events_mini()
   combos = (COMBOS + ([BLK] if blk else [])) if tier == 'quick' else COMBOS_T
   ops = OPS_Q if tier == 'quick' else OPS_T
   ev = []
